@@ -9,6 +9,8 @@ use crate::input::{self, Input, Ref};
 use crate::transcode;
 
 pub(crate) fn input_matches(mut input: Ref) -> io::Result<bool> {
+	#[cfg(xt_verif)]
+	crate::verif::emit("trial", 1, u64::from(matches!(input, Ref::Slice(_))), 0);
 	let result = match &mut input {
 		Ref::Reader(r) => match_input_reader(r),
 		Ref::Slice(b) => match str::from_utf8(b) {
@@ -86,9 +88,13 @@ impl<W: Write> crate::Output for Output<W> {
 		D: de::Deserializer<'de, Error = E>,
 		E: de::Error + Send + Sync + 'static,
 	{
+		#[cfg(xt_verif)]
+		crate::verif::emit("doc_begin", 1, 0, 0);
 		let mut ser = serde_json::Serializer::new(&mut self.0);
 		transcode::transcode(&mut ser, de)?;
 		writeln!(&mut self.0)?;
+		#[cfg(xt_verif)]
+		crate::verif::emit("doc_end", 1, 0, 0);
 		Ok(())
 	}
 
@@ -96,8 +102,12 @@ impl<W: Write> crate::Output for Output<W> {
 	where
 		S: ser::Serialize,
 	{
+		#[cfg(xt_verif)]
+		crate::verif::emit("doc_begin", 1, 1, 0);
 		serde_json::to_writer(&mut self.0, &value)?;
 		writeln!(&mut self.0)?;
+		#[cfg(xt_verif)]
+		crate::verif::emit("doc_end", 1, 0, 0);
 		Ok(())
 	}
 
